@@ -419,7 +419,8 @@ class DICWithConstraints(DIC):
         # separate the coordinates and the lagrange multipliers
         if self.n_constraints > 0:
             delta_lambda = value[-self.n_constraints :]
-            self._lambda += delta_lambda
+            # NOTE: A new array, as copies share the previous one
+            self._lambda = np.asarray(self._lambda) + delta_lambda
             delta_s = value[: -self.n_constraints]
         else:
             delta_s = value
